@@ -217,6 +217,9 @@ def explore(ctx, scn_cls, params, max_depth, max_dev=0, final_every=True,
             for st, r in results:
                 if st == 'err':
                     raise core.HarnessError('explorer task failed:\n' + r)
+                if st == 'hang':
+                    res.merge(core._hang_result(r))
+                    continue
                 for child, key, ev, viol, dev, nt in r:
                     transitions += 1
                     if nt:
@@ -340,6 +343,11 @@ def impl_digest(*roots, ignore=()):
         if name == 'DelayedCall':
             return ('DelayedCall', round(v.getTime(), 6), v.active())
         if callable(v) and hasattr(v, '__qualname__'):
+            owner = getattr(v, '__self__', None)
+            if owner is not None and (getattr(type(owner), '__module__', '')
+                                      or '').startswith('txdbus'):
+                # a bound method of a library object: which object matters
+                return ('method', v.__qualname__, walk(owner, depth + 1))
             return ('fn', v.__qualname__)
         if mod.startswith('txdbus'):
             i = id(v)
